@@ -49,7 +49,9 @@ def _gen_tasks(root, n, plan, base_idx, bias=None, force=None, stream="program",
 
 def c02(root, tier, tree):
     T = TIER[tier]
-    plan = dict(T["plan"], faults=["cut", "retail", "reloc", "ystop", "eof", "zero", "ilv", "post"], want=["L2", "LAWS"])
+    # "restart": a session abandoned in the middle and started again on the same struct must then parse like a fresh one
+    # (nothing but what start() sets up may carry over)
+    plan = dict(T["plan"], faults=["cut", "retail", "reloc", "ystop", "eof", "zero", "ilv", "post", "restart"], want=["L2", "LAWS"])
     tasks, idx = _corpus_tasks(root, tier, tree, plan)
     tasks += _gen_tasks(root, T["gen"], plan, 100000)
     tasks += _gen_tasks(root, T["gen"] // 3, plan, 200000, bias={"oos": True, "strings": True}, gen_kw={"want_yield": True}, stream="program-oos")
